@@ -448,8 +448,9 @@ class EnvHist(Engine):
                                 for k in range(600)})
         out = []
         for v, at in enumerate(positions):
-            sc = json.loads(json.dumps(base))
-            sc["ops"][i]["fault"] = {"kind": "async_mem", "at": at}
+            sc = dict(base)                      # shares everything but the faulted operation
+            sc["ops"] = list(base["ops"])
+            sc["ops"][i] = dict(base["ops"][i], fault={"kind": "async_mem", "at": at})
             sc["variant"] = v
             sc["enumerated"] = {"op": i, "events": n, "positions": len(positions)}
             out.append(sc)
